@@ -82,6 +82,7 @@ type Pos struct {
 	ParentNoMethods bool           // property of an object emitted as an inline struct without unmarshal method
 	InNamedArr      bool           // item of an array that is itself a named definition / the root
 	UnionDeclared   map[string]any // evaluating an allOf / anyOf branch: properties declared by any branch (the generated struct has them all)
+	DefStack        []string       // definitions (file#name) whose evaluation encloses this node: a $ref to one of them is a cycle
 	Path            string
 }
 
@@ -223,6 +224,7 @@ func (m *Model) valid(sn any, v any, p Pos) Verdict {
 		np.Outer = nil
 		np.InNamedArr = false
 		np.ParentNoMethods = false
+		np.DefStack = append(append([]string{}, p.DefStack...), file+"|"+ref[strings.IndexByte(ref+"#", '#'):])
 		if ts, ok := t.(map[string]any); ok && m.dev("REF_UNTYPED_DEF_IS_ANY") && strings.Contains(ref, "#/") {
 			// as built: a $ref to a definition without type and without properties becomes interface{}
 			if _, hasType := ts["type"]; !hasType {
@@ -374,6 +376,11 @@ func (m *Model) valid(sn any, v any, p Pos) Verdict {
 		}
 	}
 	if anyOf, ok := s["anyOf"].([]any); ok && len(anyOf) > 0 {
+		if m.dev("RECURSIVE_ANYOF_IS_ANY") && m.cyclicBranch(anyOf, p) {
+			// as built: an anyOf with a branch that refers back to a definition being generated becomes interface{}
+			m.fire("RECURSIVE_ANYOF_IS_ANY")
+			return res
+		}
 		best := Reject
 		saveWhy := m.Why
 		for i, b := range anyOf {
@@ -1078,4 +1085,26 @@ func (m *Model) firstWins(branches []any, file string) []any {
 		out[i] = cp
 	}
 	return out
+}
+
+// cyclicBranch: some branch is a $ref to a definition that encloses the current node.
+func (m *Model) cyclicBranch(branches []any, p Pos) bool {
+	for _, b := range branches {
+		bm, _ := b.(map[string]any)
+		ref, ok := bm["$ref"].(string)
+		if !ok {
+			continue
+		}
+		f := p.File
+		if i := strings.IndexByte(ref, '#'); i > 0 {
+			continue // cross-file cycles are not modelled
+		}
+		key := f + "|" + ref
+		for _, d := range p.DefStack {
+			if d == key {
+				return true
+			}
+		}
+	}
+	return false
 }
